@@ -77,4 +77,44 @@ def Owned (g : Graph) (cls : String) (h : Handle) : Prop :=
   ∃ p c, h.parent = some p ∧ g.child? p cls = some c ∧
     g.child? c ((g.getAttr h.obj "name").getD "") = some h.obj
 
+/-! ## where handles are constructed (`harness/extract/handlesites.py` → `Generated/HandleSites.lean`) -/
+
+/-- the parent expression a handle is constructed with -/
+inductive ParentExpr where
+  | none                -- `None`
+  | self                -- `self`: the entity whose method constructs the handle
+  | parentOfSelf        -- `self._parent`
+  | grandparentOfSelf   -- `self._parent._parent`
+  | storeOwner          -- `self._itemstore._parent` inside `LinkContainer._inst_item`: the owner of the container
+                        -- the linked items live in (the block)
+  deriving DecidableEq, Repr, Inhabited
+
+/-- one call that constructs an entity object -/
+structure HandleSite where
+  /-- class and method that contain the call -/
+  cls : String
+  method : String
+  /-- class of the constructed handle (`"item"`: the item class of the container) -/
+  item : String
+  parent : ParentExpr
+  /-- where the HDF5 object comes from: `"entry"` of the container, `"link <name>"` = the member `<name>` of the
+  constructing entity's own HDF5 group, `"entry of <group>"`, `"create_new"` -/
+  via : String
+  deriving DecidableEq, Repr, Inhabited
+
+/-- the site constructs the handle with the parent that owns the object - reading the parent expressions by
+what the constructing class is: the parent of a plain `Container` owns its entries (the parent of a
+`LinkContainer` - a group, a tag - does not); the linked items of a group / tag live in
+the containers of the block (`_itemstore._parent`); a multi-tag's parent is its block, which owns the arrays
+`positions` / `extents` link; a feature's parent is its tag, whose parent is the block, which owns the array or
+frame `data` links; `create_*` constructs the new entity with the creating entity; a section owns the entries
+of its own `properties` group -/
+def HandleSite.owned (s : HandleSite) : Bool :=
+  match s.parent with
+  | .storeOwner => s.cls == "LinkContainer" && s.via == "entry"
+  | .parentOfSelf => s.cls == "MultiTag" || (s.cls == "Container" && s.via == "entry")
+  | .grandparentOfSelf => s.cls == "Feature"
+  | .self => s.via == "create_new" || s.via == "entry of properties"
+  | .none => false
+
 end Nix.Store.CopyShape
